@@ -5,7 +5,12 @@ from typing import Any, Callable
 
 from spec_classes.types import MISSING
 from spec_classes.utils.method_builder import MethodBuilder
-from spec_classes.utils.mutation import _rollback_on_error, _unfrozen, mutate_value
+from spec_classes.utils.mutation import (
+    _rollback_on_error,
+    _unfrozen,
+    mutate_value,
+    protect_via_deepcopy,
+)
 from spec_classes.utils.type_checking import type_label
 
 from .base import MethodDescriptor
@@ -101,8 +106,14 @@ class TransformMethod(MethodDescriptor):
         if not _if:
             return self
 
+        old_value = self
+        if _transform and not _inplace:
+            # As for `transform_<attr>`: the function is handed the copy, so
+            # that whatever it builds its result from is not shared with the
+            # receiver.
+            old_value = protect_via_deepcopy(self)
         return mutate_value(
-            old_value=self,
+            old_value=old_value,
             transform=_transform,
             attr_transforms=attr_transforms,
             inplace=_inplace,
